@@ -45,3 +45,15 @@ Theorem C05_regenerated_maximum : forall fuel t d, xtwf t -> WF d (tabs t) ->
   match maxleaf fuel (tabs t) with Some l => GRet (Some l) | None => GFuel end.
 Proof. exact gen_maximum_eq. Qed.
 Print Assumptions C05_regenerated_maximum.
+
+(* the regenerated tie: the Minimum / Maximum METHODS, translated from the Go AST on every run (Gen/ApiGen.v) over the
+   regenerated minimum / maximum and restoreKey, ARE the Minimum / Maximum cases of Model.Api.step on the raw state
+   (the unsigned instance; TranslateApiFacts proves all six): (k, v, true) with the restored key, or (_, _, false) on
+   the empty tree; no panic *)
+From GoArt Require Import Model.Api Model.PoolTree Proofs.PoolTreeFacts Model.GoTree Gen.ApiGen Proofs.TranslateApiFacts.
+Theorem C05_regenerated_Minimum_Maximum : forall w st fm, sinv st -> root_wf (sabs st) ->
+  (forall t, xroot st = Some t -> fm = theight (tabs t)) ->
+  gopt_out idk (g_unsigned_Minimum akey (mtr (KUnsigned w)) (mrs (KUnsigned w)) fm (xroot st)) = snd (step (KUnsigned w) (sabs st) Minimum) /\
+  gopt_out idk (g_unsigned_Maximum akey (mtr (KUnsigned w)) (mrs (KUnsigned w)) fm (xroot st)) = snd (step (KUnsigned w) (sabs st) Maximum).
+Proof. exact (fun w st fm Hs Hw Hf => conj (gen_unsigned_minimum_eq w st fm Hs Hw Hf) (gen_unsigned_maximum_eq w st fm Hs Hw Hf)). Qed.
+Print Assumptions C05_regenerated_Minimum_Maximum.
